@@ -52,16 +52,17 @@ Definition c17_spec_eq_exact (s : c17_cstyle) (eps a b : c17_dy) : bool :=
 
 (* What a correctly rounded evaluation in format (prec, emax) may answer: [Some b] = must be b,
    [None] = the two sides are within rounding distance of each other (or near overflow). *)
-Definition c17_eq_verdict (prec emax : Z) (s : c17_cstyle) (eps a b : c17_dy) : option bool :=
+Definition c17_eq_verdict_slack (extra : c17_dy) (prec emax : Z) (s : c17_cstyle) (eps a b : c17_dy) : option bool :=
   let l := c17_dy_abs (c17_dy_sub a b) in
   let r := c17_spec_rhs s eps a b in
-  let slack := c17_dy_add (c17_dy_mul (c17_dy_add l r) (c17_dy_pow2 (3 - prec))) (c17_dy_pow2 (5 - emax - prec)) in
+  let slack := c17_dy_add (c17_dy_add (c17_dy_mul (c17_dy_add l r) (c17_dy_pow2 (3 - prec))) (c17_dy_pow2 (5 - emax - prec))) extra in
   let big := c17_dy_pow2 (emax - 2) in
   if c17_dy_leb big l || c17_dy_leb big r || c17_dy_leb big (c17_dy_abs a) || c17_dy_leb big (c17_dy_abs b) then None
   else if c17_dy_eqb a b then Some true          (* |a-b| = 0 exactly, and 0 <= eps*x for every eps, x >= 0 *)
   else if c17_dy_ltb (c17_dy_add l slack) r then Some true
   else if c17_dy_ltb (c17_dy_add r slack) l then Some false
   else None.
+Definition c17_eq_verdict := c17_eq_verdict_slack (C17_Dy 0 0).
 
 (* vectors: conjunction over components (and equal length) *)
 Definition c17_spec_veq {A : Type} (eqc : A -> A -> bool) (a b : list A) : bool :=
@@ -108,7 +109,8 @@ Definition c17_spec_round_ok (prec emax : Z) (r : c17_rstyle) (s : c17_cstyle) (
   let dl := c17_dy_sub v (c17_dy_of_Z fl) in
   let du := c17_dy_sub (c17_dy_of_Z (fl + 1)) v in
   let close := c17_dy_leb (c17_dy_abs (c17_dy_sub dl du)) (c17_dy_pow2 (3 - prec)) in
-  let tie := if close then None else c17_eq_verdict prec emax s eps dl du in
+  let tie := if close then None
+             else c17_eq_verdict_slack (c17_dy_mul (c17_dy_add (c17_dy_of_Z 4) (c17_dy_mul (c17_dy_of_Z 4) eps)) (c17_dy_pow2 (- prec))) prec emax s eps dl du in
   let near (i : Z) := c17_eq_verdict prec emax s eps (c17_dy_of_Z i) v in
   let down := c17_spec_down r v in
   if c17_dy_eqb (c17_dy_of_Z fl) v then Z.eqb z fl
